@@ -133,6 +133,7 @@ fn main() {
         std::process::exit(2);
     }
     let code = match args.id.as_str() {
+        "C03" => dispatch(&props::c03::C03, &env, &args),
         "C05" => dispatch(&props::c05::C05, &env, &args),
         "C06" => dispatch(&props::c06::C06, &env, &args),
         "C13" => dispatch(&props::c13::C13, &env, &args),
